@@ -194,6 +194,14 @@ def astep (s : ASys) : AOp → Except Panic (ASys × AObs)
     | [] => .ok (s, .idle)
     | a :: rest => .ok ({ s with bs := rest, snd := { s.snd with queue := s.snd.queue ++ [a] } }, .moved)
 
+/-- the schedule of a system that comes to rest after every operation, in terms of the moves: after an operation of the
+sender the broker handles the item, the receiver's client delivers it and the sender's client delivers the announcement (if
+any); after a take the broker handles the grant and the sender's client delivers the announcement -/
+def expand : Op → List AOp
+  | .send => [.app .send, .brokerItem, .deliverItem, .deliverAnn]
+  | .take => [.app .take, .brokerGrant, .deliverAnn]
+  | op => [.app op]
+
 def arun (s : ASys) : List AOp → Except Panic (ASys × List AObs)
   | [] => .ok (s, [])
   | op :: ops =>
